@@ -1171,6 +1171,29 @@ def m_str_cmp(ex, st, fr, path, args, m):
 # ------------------------------------------------------------------------------------------------
 # iterators
 # ------------------------------------------------------------------------------------------------
+@model(r"^<&mut ([A-Z]\w*)(?:<.*>)? as (?:std::iter::)?(IntoIterator|Iterator)>::(into_iter|next)$")
+def m_mut_ref_iterator(ex, st, fr, path, args, m):
+    """`impl<I: Iterator> Iterator for &mut I` / IntoIterator for a crate-defined iterator struct behind &mut: forward to I"""
+    ty, op = m.group(1), m.group(3)
+    if op == "into_iter":
+        v = deref_val(args[0])
+        if isinstance(v, Agg) and v.kind == "struct" and (v.name or "") == ty:
+            return args[0]
+        return NotImplemented
+    # next(&mut &mut I): peel one reference and run I::next
+    r = args[0]
+    inner = deref_val(r)
+    if not isinstance(inner, Ref):
+        return NotImplemented
+    tgt = deref_val(inner)
+    if not (isinstance(tgt, Agg) and tgt.kind == "struct" and (tgt.name or "") == ty):
+        return NotImplemented
+    res = ex.resolve_method(ty, "Iterator", "next")
+    if res is None:
+        return NotImplemented
+    return ex.call_sync(st, res[0], [inner], dict(res[1]))
+
+
 @model(r"^<(.*) as (?:std::iter::)?IntoIterator>::into_iter$")
 def m_into_iter(ex, st, fr, path, args, m):
     a = args[0]
